@@ -810,7 +810,7 @@ class Emitter:
             raise TranslateError('unsupported field .%s' % e[2])
         if k == 'index' and e[2][0] == 'rangefrom':
             s_, t_ = self.expr(e[1], env)
-            if t_ not in ('slice', 'mutslice'):
+            if t_ not in ('slice', 'mutslice', 'uint') and not (isinstance(t_, tuple) and t_[0] == 'array'):
                 raise TranslateError('suffix slicing of a non-slice')
             n_, _ = self.expr(e[2][1], env, 'usize')
             return '(%s.drop %s)' % (s_, n_), 'slice'       # `&xs[k..]` panics for k > len; callers pass k ≤ len
@@ -2948,6 +2948,13 @@ def fls_items(repo):
     return out
 
 
+def shift_op_items(repo):
+    """`Shl<Uint>` / `Shr<Uint>` of src/bits.rs (the shift amount is itself a Uint)"""
+    u = {'self_ty': 'uint', 'uint': True, 'group': 'shiftops', 'externs': UINT_EXTERNS, 'file': repo + '/src/bits.rs'}
+    return [dict(u, fn='shl', lean='uint_shl_uint', key='Uint::shl_uint', after='Shl<Self> for Uint<BITS, LIMBS>'),
+            dict(u, fn='shr', lean='uint_shr_uint', key='Uint::shr_uint', after='Shr<Self> for Uint<BITS, LIMBS>')]
+
+
 def radix_items(repo):
     """src/base_convert.rs: digit-sequence conversions (limb mode; errors are (variant index, fields))"""
     f = repo + '/src/base_convert.rs'
@@ -2973,6 +2980,7 @@ GROUPS = [('core', 'Words', ('Ruint.Gen.Prelude',)),
           ('bytes', 'WordsBytes', ('Ruint.Gen.WordsUintMod', 'Ruint.Gen.PreludeBytes')),
           ('conv', 'WordsConv', ('Ruint.Gen.WordsUintMod',)),
           ('fls', 'WordsFls', ('Ruint.Gen.WordsUintMod',)),
+          ('shiftops', 'WordsShiftOps', ('Ruint.Gen.WordsUint',)),
           ('value', 'WordsValue', ('Ruint.Gen.Prelude', 'Ruint.Model.Modular')),
           ('gcdv', 'WordsGcd', ('Ruint.Gen.Prelude', 'Ruint.Model.Gcd'))]
 
@@ -2994,6 +3002,7 @@ def translate_all(repo):
     items += bytes_items(repo)
     items += conv_items(repo)
     items += fls_items(repo)
+    items += shift_op_items(repo)
     items += value_items(repo)
     items += gcd_value_items(repo)
     try:
